@@ -210,7 +210,7 @@ func (g *pgen) line(format string, a ...any) {
 	g.sb.WriteString("\n")
 }
 
-var words = []string{"alpha", "beta", "gamma", "Hello World", "x", "", "a b", "one,two", "42", "file.txt", "tmp/data", "done", "OK: ", "-", "A", "zz top"}
+var words = []string{"alpha", "beta", "gamma", "Hello World", "x", "", "a b", "one,two", "42", "file.txt", "tmp/data", "done", "OK: ", "-", "A", "zz top", "Grüße", "日本語 text", "naïve café"}
 
 func (g *pgen) strLit() string {
 	if g.f.NoStrLit {
